@@ -91,6 +91,7 @@ def gen_case(rng, idx, tier):
     if tol == "0" and nt != "frac":
         tol = "1e-9"  # tolerance 0 is only meaningful in exact arithmetic
     d["nodes"] = lib.enc(nodes)
+    d["argform"] = rng.choice(["list", "list", "tuple", "array", "generator"])
     d["tol"] = tol
     d["regime"] = regime
     return d
@@ -148,7 +149,7 @@ def run_case(case, ctx):
         wf = ref.wellformed(exp)
         legal = wf is not None and (exp[0], exp[-1]) == (rc.U[0], rc.U[-1])
         degree_changed = legal and wf[0] != p  # both end knots removed: a degree reduction; may be refused
-    o = call(curve.knot_remove, nodes_n, **kwargs)
+    o = call(curve.knot_remove, lib.container(nodes_n, case.get("argform", "list")), **kwargs)
     if not legal:
         ctx.count("invalid_requests")
         how = case.get("how", "?")
